@@ -50,6 +50,14 @@ def all_fns(tree):
             if k == "fn":
                 out.setdefault(it["path"], it)
             elif k == "impl":
+                import re
+                assoc = {}
+                for ii in it["items"]:
+                    if ii.get("k") == "other":
+                        m = re.match(r"type (\w+) = (.+?) ;", ii["text"])
+                        if m: assoc[m.group(1)] = m.group(2).replace(" ", "")
+                for ii in it["items"]:
+                    if ii.get("k") == "fn": ii["_assoc"] = assoc
                 walk(it["items"])
             elif k == "mod" and it.get("items"):
                 # skip #[cfg(test)] modules
